@@ -131,8 +131,13 @@ claim("C17", "proof", T1 + " (heap theory B with a traversal view, reals for flo
       "ASSUMED: postorder_node_iter yields every node once, children before parents (C15); tree well-formedness (C03); floats are reals; forcing options, set_node_age_fn, "
       "the statistics of treemeasure are bounded only",
       "DESIGN.md section 5 C17, section 9")
-claim("C19", "proof", T1 + " (loop measures over length-modelled lists, guard-progress effect scan, Lean 4 + Mathlib lemma); " + T2,
-      "Proved (T1): termination and exact growth of CharacterDataSequence.set_at; every while loop of charmatrixmodel.py can change its guard or leave; the concatenate "
-      "label loop terminates (step + frame obligations on the AST, Lean lemma injective_escapes_finite). Bounded (T2): row-set algebra, padding, column selection, "
-      "concatenation, argument immutability, namespace refusal, wall-clock guards.",
-      "guard-progress is a necessary condition only; injectivity of the '%s_%03d' label format in the counter is an arithmetic assumption", "DESIGN.md section 5 C19")
+claim("C19", "proof", T1 + " (dictionaries as maps with object allocation for the row algebra; loop measures over length-modelled lists, guard-progress effect scan, Lean 4 + Mathlib lemma for termination); " + T2,
+      "Proved (T1, row-set algebra): for distinct matrices over one namespace object add_sequences / replace_sequences / update_sequences / extend_sequences / extend_matrix leave "
+      "exactly the rows the statement names, an existing row keeps its very sequence object (growing by the argument's row length where the method extends), a new or replaced row is a "
+      "NEW object of the argument's row length sharing nothing with the argument, the argument keeps its rows, objects and lengths, rows never share a sequence object, and "
+      "TaxonNamespaceIdentityError is raised exactly when the namespaces are different objects; CharacterDataSequence.__init__ / extend lengths. "
+      "Proved (T1, termination): set_at; every while loop of charmatrixmodel.py can change its guard or leave; the concatenate label loop (step + frame obligations, "
+      "Lean lemma injective_escapes_finite). Bounded (T2): cell contents, padding (fill/pack), column selection, concatenation, remove/discard/keep_sequences, "
+      "the self-as-argument case, wall-clock guards.",
+      "a sequence is modelled by the length of its value list; `self.__class__.character_sequence_type` is read as a CharacterDataSequence class (AST obligation over every assignment); "
+      "guard-progress is a necessary condition only; injectivity of the '%s_%03d' label format in the counter is an arithmetic assumption", "DESIGN.md section 5 C19, section 9")
